@@ -50,9 +50,11 @@ class Opaque:
 
 
 class SymExec:
-    def __init__(self, handlers=None, inline=None):
+    def __init__(self, handlers=None, inline=None, resolver=None):
         self.handlers = handlers or {}
         self.inline = inline or {}
+        self.resolver = resolver      # name -> ast.FunctionDef of a helper (same class / same module) whose body is executed in place of the call
+        self.depth = 0
         self.effects = []
         self.notes = {}
 
@@ -135,6 +137,10 @@ class SymExec:
             name = self.dotted(node.func)
             args = node.args
             kw = {k.arg: k.value for k in node.keywords}
+            if name not in self.handlers and isinstance(node.func, ast.Attribute) and isinstance(node.func.value, ast.Name):
+                recv = env.get(node.func.value.id)
+                if isinstance(recv, Opaque) and isinstance(recv.tag, str) and (recv.tag + "." + node.func.attr) in self.handlers:
+                    name = recv.tag + "." + node.func.attr      # the same object under another local name (helper parameter)
             if name in self.handlers:
                 return self.handlers[name](self, args, kw, env)
             return self.numpy_call(name, args, kw, env)
@@ -201,7 +207,53 @@ class SymExec:
             return ("not", a[0])
         if name in self.inline:
             return self.inline[name](self, a, kw, env)
+        fn = self.resolver(name) if self.resolver else None
+        if fn is not None:
+            return self.call_helper(name, fn, a, {k: self.ev(v, env) for k, v in kw.items()}, env)
         raise TranslationError("call %s" % name)
+
+    def call_helper(self, name, fn, args, kwargs, env):
+        """a call of a straight-line helper (private method or module function) is executed symbolically in place: extracting common code into a
+        helper, or inlining one, leaves the translation unchanged"""
+        if self.depth >= 4:
+            raise TranslationError("helper calls nested deeper than 4 (%s)" % name)
+        if fn.args.vararg or fn.args.kwarg or fn.args.kwonlyargs:
+            raise TranslationError("helper %s with *args/**kwargs" % name)
+        params = [a.arg for a in fn.args.args]
+        new = {}
+        if name.startswith("self."):
+            if not params or params[0] != "self":
+                raise TranslationError("method %s without self" % name)
+            params = params[1:]
+            for k, v in env.items():
+                if k == "self" or k.startswith("self."):
+                    new[k] = v
+        if len(args) > len(params):
+            raise TranslationError("too many arguments for %s" % name)
+        defaults = fn.args.defaults
+        for i, pname in enumerate(params):
+            if i < len(args):
+                new[pname] = args[i]
+            elif pname in kwargs:
+                new[pname] = kwargs[pname]
+            else:
+                j = i - (len(params) - len(defaults))
+                if j < 0:
+                    raise TranslationError("missing argument %s of %s" % (pname, name))
+                new[pname] = self.ev(defaults[j], {})
+        if any(isinstance(n, (ast.If, ast.For, ast.While, ast.Try, ast.With)) for n in ast.walk(fn)) and not any(("if:" + ast.unparse(n.test)) in self.handlers for n in ast.walk(fn) if isinstance(n, ast.If)):
+            raise TranslationError("helper %s is not straight-line code" % name)
+        self.depth += 1
+        try:
+            sub = self.run(fn.body, new)
+        finally:
+            self.depth -= 1
+        for k, v in sub.items():
+            if k.startswith("self."):
+                env[k] = v
+        if "__return__" not in sub:
+            raise TranslationError("helper %s returns nothing" % name)
+        return sub["__return__"]
 
     # ---------------------------------------------------------------- statements
     def run(self, stmts, env):
@@ -278,6 +330,54 @@ def innermost_for(fn, var):
     if found is None:
         raise TranslationError("no loop over %s" % var)
     return found.body
+
+
+def module_resolver(path):
+    """helpers a kernel may call: module-level functions of the same file (straight-line ones are executed in place)"""
+    tree = ast.parse(open(path).read())
+    table = {n.name: n for n in tree.body if isinstance(n, ast.FunctionDef)}
+    return lambda name: table.get(name)
+
+
+def hoisted_prelude(se, fn, var, env):
+    """loop-invariant assignments made before the innermost `for <var>` loop (at function level or in an enclosing loop body) are executed first,
+    so that hoisting a subexpression out of the loop leaves the translation unchanged; statements the executor cannot read are skipped
+    (an unknown name met later in the loop body is still a TranslationError)"""
+    def walk(stmts):
+        for st in stmts:
+            if isinstance(st, ast.For):
+                if isinstance(st.target, ast.Name) and st.target.id == var:
+                    return True
+                if any(isinstance(n, ast.For) and isinstance(n.target, ast.Name) and n.target.id == var for n in ast.walk(st)):
+                    return walk(st.body)
+                continue
+            if isinstance(st, ast.Assign) and len(st.targets) == 1 and isinstance(st.targets[0], ast.Name) and st.targets[0].id not in env:
+                try:
+                    trial = dict(env)
+                    keep = list(se.effects), dict(se.notes)
+                    se.stmt(st, trial)
+                    if se.effects != keep[0] or se.notes != keep[1]:     # a statement with effects is not a loop-invariant definition
+                        se.effects[:] = keep[0]
+                        se.notes.clear()
+                        se.notes.update(keep[1])
+                        continue
+                    env[st.targets[0].id] = trial[st.targets[0].id]
+                except (TranslationError, KeyError, AttributeError, TypeError):
+                    pass
+        return False
+    walk(fn.body)
+    return env
+
+
+def find_nodes(e, kind, acc=None):
+    """distinct sub-expressions of a given kind, in order of first appearance"""
+    acc = acc if acc is not None else []
+    if isinstance(e, tuple) and e and isinstance(e[0], str):
+        if e[0] == kind and e not in acc:
+            acc.append(e)
+        for x in e[1:]:
+            find_nodes(x, kind, acc)
+    return acc
 
 
 # ---------------------------------------------------------------- free symbols, printing
